@@ -749,6 +749,11 @@ def _dedup(case, ctx, pdf, ddf):
             pre = {"key1": (sub or cols)[:1], "all": cols, "first2": cols[:2]}[case.get("pre", "key1")]
             d2 = d2.shuffle(on=pre, shuffle_method=method)
             ctx.count("drop_duplicates_after_shuffle")
+            if case["fs"] % 3:
+                # a blockwise step between the shuffle and drop_duplicates: without it the optimiser simply removes the
+                # shuffle below DropDuplicates; with it DropDuplicates may REUSE the partitioning of that shuffle
+                d2, p2 = d2.assign(zz=1), p2.assign(zz=1)
+                cols = cols + ["zz"]
         if keep is False:
             try:
                 d2.drop_duplicates(subset=sub, keep=False)
@@ -767,13 +772,21 @@ def _dedup(case, ctx, pdf, ddf):
         if not ok:
             return
         ctx.count("drop_duplicates_checked")
+        if kind == "preshuffled":
+            try:
+                nsh = sum(1 for e in d2.drop_duplicates(**kwargs).optimize(fuse=False).expr.walk() if "Shuffle" in type(e).__name__)
+                ctx.count("dedup_after_shuffle_with_%s_shuffle_layers" % ("one" if nsh == 1 else "no" if nsh == 0 else "several"))
+            except Exception:  # noqa: BLE001
+                pass
         if len(exp) < len(p2):
             ctx.count("drop_duplicates_with_duplicates")
         ctx.distinct("dedup_feature", feat)
         kc = sub or cols
         m = F.compare(got[kc], exp[kc], ordered=False, check_index=False)
         if m is not None:
-            ctx.violation("%s:keys-%s" % (feat, m[0]), "surviving keys differ from pandas (as multisets): %s" % m[1], case=desc)
+            ctx.violation("drop_duplicates:frame%s:%s:%s:keys-%s" % ("&pre-shuffled" if kind == "preshuffled" else "",
+                                                                     "subset" if sub else "whole-row", spath, m[0]),
+                          "surviving keys differ from pandas (as multisets): %s" % m[1], case=desc)
             return
         # survivor facet: full rows (and index label unless ignore_index) of the kept duplicate.  Not judged after an
         # explicit shuffle: shuffle() documents that it keeps no meaningful order, so first/last are undefined there.
@@ -847,7 +860,8 @@ def _dedup(case, ctx, pdf, ddf):
         ctx.count("drop_duplicates_checked")
         ctx.distinct("dedup_feature", feat)
         if not isinstance(got, pd.Series) or _valuelist(got) != _valuelist(exp):
-            ctx.violation("%s:keys-values" % feat, "got %s, pandas %s" % (_valuelist(got)[:12], _valuelist(exp)[:12]), case=desc)
+            ctx.violation("drop_duplicates:series:%s:%s:keys-values" % (dk, spath),
+                          "got %s, pandas %s" % (_valuelist(got)[:12], _valuelist(exp)[:12]), case=desc)
             return
         ctx.count("survivor_checked")
         m = F.compare(got, exp, ordered=False, check_index=not case["ignore_index"])
